@@ -33,6 +33,8 @@ pub fn c12_variants(tier: &str, words: &[u32]) -> Vec<Variant> {
             }
             let me = id(A, 1).with(Renew::Next);
             let cfg = Cfg { fanout, notify_down: false, ..Cfg::default() };
+            // a reconfiguration in the middle of a round must not end it
+            let more_helpers = Ev::SetConfig(Box::new(Cfg { fanout: fanout + 1, ..cfg.clone() }));
             let mut s = CoreSpec::new(&format!("c12-peers{peers}-fanout{fanout}"), me, cfg);
             s.words = words.to_vec();
             s.mons.c12 = true;
@@ -56,6 +58,10 @@ pub fn c12_variants(tier: &str, words: &[u32]) -> Vec<Variant> {
                 ],
                 applies: vec![(members.iter().map(|m| mm(*m, 0, State::Down)).collect(), true)],
                 change_gens: vec![1],
+                // a custom-broadcast tail the handler rejects: the call reports
+                // the error, the message itself is still reacted to
+                items: vec![vec![0xFF, 1]],
+                api: vec![more_helpers],
                 ..Alpha::default()
             };
             // relay requests, incl. the ones naming the instance itself
@@ -92,7 +98,7 @@ pub fn c12_variants(tier: &str, words: &[u32]) -> Vec<Variant> {
                     sb.fire(|t| matches!(t, TimerKey::ProbeRandomMember(_)));
                 }));
             }
-            let l = if th { lim(7, 7, 12_000_000, 900.0) } else { lim(4, 4, 1_500_000, 12.0) };
+            let l = if th { lim(7, 7, 12_000_000, 900.0) } else { lim(4, 4, 1_500_000, 60.0) };
             out.push(Variant { spec: s, lim: l });
         }
     }
@@ -122,7 +128,7 @@ pub fn c12_variants(tier: &str, words: &[u32]) -> Vec<Variant> {
             sb.ev(Ev::Apply(members.iter().map(|m| al(*m)).collect(), false));
             sb.fire(|t| matches!(t, TimerKey::ProbeRandomMember(_)));
         }));
-        let l = if th { lim(5, 5, 6_000_000, 600.0) } else { lim(3, 3, 1_000_000, 15.0) };
+        let l = if th { lim(5, 5, 6_000_000, 600.0) } else { lim(3, 3, 1_000_000, 60.0) };
         out.push(Variant { spec: s, lim: l });
     }
     out
@@ -137,7 +143,8 @@ pub fn c12(tier: &str) -> Report {
         "round_outcomes",
         json!({"evidence_no_suspicion": t[0], "no_evidence_suspect_plus_timer": t[1], "target_changed": t[2], "aborted": t[3], "rounds_with_pingreq": t[4], "pings_answered": t[5], "relay_hops": t[6], "relay_for_ourselves_rejected": t[7]}),
     );
-    if rep.violations.is_empty() && t.iter().any(|x| *x == 0) {
+    // (a run cut by the wall / memory guard reports the cut, not vacuity)
+    if rep.violations.is_empty() && rep.exhaustive && t.iter().any(|x| *x == 0) {
         rep.machinery(format!("vacuous: an outcome class was never exercised: {t:?}"));
     }
     rep.assume("timers are delivered in deadline order (SendIndirectProbe before the next ProbeRandomMember); only timers Foca scheduled are delivered");
@@ -189,7 +196,7 @@ pub fn c15_variants(tier: &str, words: &[u32]) -> Vec<Variant> {
                 sb.ev(Ev::Apply(vec![al(id(B, 0)), al(id(C, 1)), al(id(D, 2))], true));
                 sb.ev(Ev::Gossip);
             }));
-            let l = if th { lim(6, 6, 10_000_000, 900.0) } else { lim(4, 4, 1_500_000, 12.0) };
+            let l = if th { lim(6, 6, 10_000_000, 900.0) } else { lim(4, 4, 1_500_000, 60.0) };
             out.push(Variant { spec: s, lim: l });
         }
     }
@@ -213,7 +220,7 @@ pub fn c15_variants(tier: &str, words: &[u32]) -> Vec<Variant> {
         s.seed_hists.push(seed(&s, |sb| {
             sb.ev(Ev::Apply(vec![al(id(B, 0)), al(id(C, 1))], true));
         }));
-        let l = if th { lim(6, 6, 6_000_000, 600.0) } else { lim(4, 4, 800_000, 10.0) };
+        let l = if th { lim(6, 6, 6_000_000, 600.0) } else { lim(4, 4, 800_000, 60.0) };
         out.push(Variant { spec: s, lim: l });
     }
     out
@@ -230,7 +237,7 @@ pub fn c15(tier: &str) -> Report {
     }
     let t: Vec<u64> = crate::mon_bcast::C15_TALLY.iter().map(|a| a.load(Relaxed)).collect();
     rep.set("tally", json!({"piggybacking_datagrams_checked": t[0], "updates_carried": t[1], "omitted_entry_cases": t[2], "entries_expired_after_max_transmissions": t[3], "entries_superseded": t[4]}));
-    if rep.violations.is_empty() && t.iter().any(|x| *x == 0) {
+    if rep.violations.is_empty() && rep.exhaustive && t.iter().any(|x| *x == 0) {
         rep.machinery(format!("vacuous: a tally is zero: {t:?}"));
     }
     rep.assume("within one call acceptances precede sends (self-suspicion only as the last update of a batch), which makes the per-call record diff exact");
@@ -283,11 +290,9 @@ pub fn c16_variants(tier: &str, words: &[u32]) -> Vec<Variant> {
         (InvMode::EqualKey, 0, 2, 30),
         (InvMode::Never, 1 << B, 2, 20),
         (InvMode::Always, 0, 1, 1400),
+        (InvMode::Generation, 0, 2, 1400),
         (InvMode::Never, (1 << B) | (1 << C), 2, 1400),
     ] {
-        if !th && matches!(mode, InvMode::Always) {
-            continue;
-        }
         let me = id(A, 1).with(Renew::None);
         let cfg = Cfg { max_tx: mt, max_packet: packet, fanout: 2, ..Cfg::default() };
         let mut s = CoreSpec::new(&format!("c16-{mode:?}-mask{mask}-mt{mt}-pkt{packet}"), me, cfg);
@@ -327,7 +332,7 @@ pub fn c16_variants(tier: &str, words: &[u32]) -> Vec<Variant> {
         s.seed_hists.push(seed(&s, |sb| {
             sb.ev(Ev::Apply(vec![al(id(B, 0)), al(id(C, 0)), al(id(D, 0))], false));
         }));
-        let l = if th { lim(6, 6, 10_000_000, 900.0) } else { lim(4, 4, 1_500_000, 10.0) };
+        let l = if th { lim(6, 6, 10_000_000, 900.0) } else { lim(4, 4, 1_500_000, 60.0) };
         out.push(Variant { spec: s, lim: l });
     }
     // More members than a Feed can list in a tight packet: whatever a Feed
@@ -358,7 +363,7 @@ pub fn c16_variants(tier: &str, words: &[u32]) -> Vec<Variant> {
             sb.ev(Ev::AddBroadcast(it(2, 1)));
             sb.ev(Ev::AddBroadcast(it(3, 1)));
         }));
-        let l = if th { lim(5, 5, 6_000_000, 600.0) } else { lim(3, 3, 1_000_000, 15.0) };
+        let l = if th { lim(5, 5, 6_000_000, 600.0) } else { lim(3, 3, 1_000_000, 60.0) };
         out.push(Variant { spec: s, lim: l });
     }
     out
@@ -370,7 +375,7 @@ pub fn c16(tier: &str) -> Report {
     run_variants("C16", tier, c16_variants(tier, &words), &mut rep);
     let t: Vec<u64> = crate::mon_bcast::C16_TALLY.iter().map(|a| a.load(Relaxed)).collect();
     rep.set("tally", json!({"datagrams_with_items": t[0], "items_carried": t[1], "receiver_side_checks": t[2], "broadcast_calls": t[3], "invalidations": t[4]}));
-    if rep.violations.is_empty() && t[..5].iter().any(|x| *x == 0) {
+    if rep.violations.is_empty() && rep.exhaustive && t[..5].iter().any(|x| *x == 0) {
         rep.machinery(format!("vacuous: a tally is zero: {t:?}"));
     }
     rep
@@ -409,7 +414,32 @@ pub fn c07_variants(tier: &str, words: &[u32]) -> Vec<Variant> {
         s.seed_hists.push(seed(&s, |sb| {
             sb.ev(Ev::Apply(vec![al(id(B, 0)), al(id(C, 1)), al(id(D, 2))], true));
         }));
-        let l = if th { lim(5, 5, 6_000_000, 600.0) } else if packet == 1400 { lim(4, 4, 2_500_000, 25.0) } else { lim(3, 3, 600_000, 8.0) };
+        let l = if th { lim(5, 5, 6_000_000, 600.0) } else if packet == 1400 { lim(4, 4, 2_500_000, 25.0) } else { lim(3, 3, 600_000, 60.0) };
+        out.push(Variant { spec: s, lim: l });
+    }
+    // A handler that accepts anything, even an empty item, and peers that
+    // send empty custom-broadcast frames in every position: whatever comes in,
+    // what goes out must stay well-formed. Lean alphabet.
+    {
+        let me = id(A, 1).with(Renew::Next);
+        let cfg = Cfg { max_packet: 1400, max_tx: 3, fanout: 2, ..Cfg::default() };
+        let mut s = CoreSpec::new("c07-empty-frames", me, cfg);
+        s.words = words.to_vec();
+        s.mons.c07 = true;
+        s.handler.accept_empty = true;
+        s.alpha = Alpha {
+            srcs: vec![(id(B, 0), 0, true)],
+            kinds: vec![Kind::Gossip, Kind::Ping, Kind::Broadcast],
+            payload_kinds: vec![Kind::Gossip],
+            payloads: vec![vec![]],
+            item_sets: vec![vec![vec![], vec![1, 1, 9]], vec![vec![1, 1, 9], vec![]], vec![vec![]], vec![vec![], vec![]]],
+            api: vec![Ev::Gossip, Ev::Broadcast, Ev::AddBroadcast(vec![]), Ev::AddBroadcast(vec![0, 1, 2])],
+            ..Alpha::default()
+        };
+        s.seed_hists.push(seed(&s, |sb| {
+            sb.ev(Ev::Apply(vec![al(id(B, 0)), al(id(C, 1))], true));
+        }));
+        let l = if th { lim(5, 5, 3_000_000, 300.0) } else { lim(3, 3, 600_000, 60.0) };
         out.push(Variant { spec: s, lim: l });
     }
     out
